@@ -2,6 +2,7 @@
    The theorems are about Scanner.Scan on the EXACT reader (3-slot ring, one-deep pushback re-reads of the opening
    quote, CR folding), started between tokens ([wf]: nothing pushed back). *)
 From InfluxQL Require Import Base.Prelude Lex.Token Lex.Reader Lex.Scanner Lex.Quote Proofs.ReaderProofs Proofs.QuoteProofs Proofs.BareIdentProofs.
+From InfluxQL Require Import Lex.StreamLex Proofs.StreamTile Proofs.BareConverse.
 
 (* for every expressible string (no NUL, no CR), QuoteString(s) followed by ANY text scans as one STRING token with
    value s, leaving exactly that text *)
@@ -28,8 +29,8 @@ Proof. exact scan_quote_string_any. Qed.
 Print Assumptions C06_no_breakout.
 
 (* a non-empty name for which IdentNeedsQuotes is false, written bare, scans as exactly that one identifier, whatever
-   follows it - the end of the text, or any rune that cannot continue an identifier.  (The converse - a name that needs
-   quotes never scans bare as itself - is checked exhaustively over short names by the harness, not proved.) *)
+   follows it - the end of the text, or any rune that cannot continue an identifier.  (The converse is C06_needs_quotes
+   below.) *)
 Theorem C06_bare : forall ulower s rest r,
   wf r -> s <> [] -> ident_needs_quotes ulower s = false -> ends_ident rest -> r_src r = s ++ rest ->
   exists p r', scan ulower r = ((IDENT, p, s), r') /\ stopped rest r'.
@@ -41,3 +42,12 @@ Example C06_example :
   let s := ts "x' OR 'y\" ++ [10] ++ ts "'; DROP DATABASE d; --" in
   fst (scan (fun c => c) (new_reader (quote_string s ++ ts " AND z"))) = (STRING, pos0, s).
 Proof. vm_compute. reflexivity. Qed.
+
+(* the converse of C06_bare, on the plain-text lexer that the exact lexer refines (C05_scan_is_stream_scan): a non-empty
+   name for which IdentNeedsQuotes is true, written bare in front of any text, is never scanned as the one identifier
+   with that name followed by that text - it is a keyword token, or another kind of token, or an identifier with
+   another value, or it ends elsewhere *)
+Theorem C06_needs_quotes : forall ulower s rest, s <> [] -> ident_needs_quotes ulower s = true -> canon (s ++ rest) ->
+  s_scan ulower (s ++ rest) <> ((IDENT, s), rest).
+Proof. exact bare_needs_quotes. Qed.
+Print Assumptions C06_needs_quotes.
